@@ -984,7 +984,7 @@ pub fn execute(case: &StreamCase, focus: Focus, st: &mut Stats) -> Exec {
         let starts: Vec<usize> = case.aux.iter().skip(2).take(n).map(|x| *x as usize).collect();
         // soundness guard (also protects the minimiser): pattern occurrences == record starts,
         // every record complete and well-formed
-        let mut sound = pattern_positions(&data) == starts;
+        let mut sound = pattern_positions(&data) == starts && starts.iter().all(|s0| *s0 + 20 <= data.len());
         let mut ends = vec![];
         for s0 in &starts {
             match cut_at(&data, *s0, true) {
